@@ -8,7 +8,7 @@ build_tools
 S=$(mktemp -d "${TMPDIR:-/tmp}/verif-setup-XXXXXX")
 trap 'rm -rf "$S"' EXIT
 stage_inst "$S"
-if [ -d harness/plain/cmd/pharness ]; then stage_plain "$S"; fi
+if [ -d harness/plain/cmd/pharness ]; then stage_plain "$S"; stage_plain_race "$S"; fi
 # the repository's own test suite, rewritten by the same pass (mocks and tests included), must stay green on the
 # runtime's pass-through mode: validates the rewriter on all of sx's code
 (cd "$S/inst" && go test -tags verif -vet=off -count=1 ./... > "$S/suite.log" 2>&1) || { grep -v "^ok\|no test files" "$S/suite.log" | head -40; echo "setup: sx's suite fails through the rewritten tree"; exit 1; }
